@@ -228,7 +228,7 @@ def run_case(case) -> Result:
 
 
 def shards(tier):
-    n = 250 if tier == "quick" else 20000
+    n = 600 if tier == "quick" else 20000
     return [Shard(f"gen-{i}", lambda: cases(), n, subject="accessors") for i in range(14)] + [
         Shard(f"gen-long-{i}", lambda: cases(max_n=90), n // 3, subject="accessors", cost=2) for i in range(2)
     ]
